@@ -20,6 +20,13 @@ class Exhausted(Exception):
         self.index = index
 
 
+class HarnessAssumption(BaseException):
+    """the exploration assumes that one candidate is drawn with ONE call of
+    the entropy function and that a call asks for the same number of bytes
+    each time (as the code does); if a refactoring changes that, the run ends
+    with an internal error (exit 2) - never with a VIOLATION line"""
+
+
 class Script(object):
     """Environment: answers draw i with answers[i]; asks the explorer (by
     raising Exhausted) when the script is used up."""
@@ -35,8 +42,8 @@ class Script(object):
             raise Exhausted(nbytes, i)
         a = self.answers[i]
         if len(a) != nbytes:
-            raise AssertionError("draw %d asked %d bytes, script has %d"
-                                 % (i, nbytes, len(a)))
+            raise HarnessAssumption("draw %d asked %d bytes, script has %d"
+                                    % (i, nbytes, len(a)))
         return a
 
 
